@@ -108,7 +108,9 @@ def explore(hspec, tier, shard_index):
     from zverif import api
 
     cfg = hspec.tier(tier)
-    shard = cfg['shards'][shard_index]
+    shard = dict(cfg['shards'][shard_index])
+    opts = {k: shard.pop(k) for k in list(shard) if k.startswith('_')}     # per-shard options, e.g. _timeout
+    cfg.update({k[1:]: v for k, v in opts.items()})
     fn = hspec.fn
     sig = inspect.signature(fn)
     sym_params = [p for n, p in sig.parameters.items() if n not in shard]
